@@ -85,6 +85,8 @@ def act? (self : Nat) (s : String) : Option Act :=
     if j = self then none else some (.destroy j)
   else if s.startsWith "cm" then (bounded? (s.drop 2).toString 255).map .calMask
   else if s.startsWith "cs" then (specialsSep? (s.drop 2).toString "+").map .calSp
+  else if s == "gt0" then some (.gtod false)     -- from here on gettimeofday() fails
+  else if s == "gt1" then some (.gtod true)
   else if s.startsWith "cl" then (slot? (s.drop 2).toString).map .cleanup
   else if s.startsWith "tz" then
     match (s.drop 2).toString.splitOn ":" with
@@ -263,8 +265,10 @@ def parseOp (w : World) (ws : List String) : POp :=
     | ["init", i, sod, m, wd] => do
         let i ← slot? i; let sod ← int? sod; let m ← mask? m; let wd ← bool? wd
         if sod < -sodMax - 1 ∨ sod > sodMax then none else
-        let _ ← w.get i
-        pure (.world (.init i sod m wd) [])
+        let a ← w.get i
+        let r := initAlarm a sod m wd
+        pure (.world (.init i sod m wd) ((if a.st = .running then ["init-while-running"] else []) ++
+          (if r.2 ∧ a.st = .inited ∧ r.1.sod = a.sod ∧ r.1.mask = a.mask ∧ r.1.wd = a.wd then ["init-same-again"] else [])))
     | ["initc", i, s, m, h, dom, mon, dow] => do
         let i ← slot? i
         let s ← cronField? s; let m ← cronField? m; let h ← cronField? h
@@ -276,27 +280,42 @@ def parseOp (w : World) (ws : List String) : POp :=
     | ["tz", i, m] => do
         let i ← slot? i; let m ← int? m
         if m < -tzMax ∨ m > tzMax then none else
-        let _ ← w.get i
-        pure (.world (.tz i m) [])
+        let a ← w.get i
+        pure (.world (.tz i m) (if a.tzSet ∧ a.off = m * 60 then ["tz-same-again"] else []))
     | ["en", i] => do
         let i ← slot? i; let a ← w.get i
+        if enableNeedsDeadCal w i then none else       -- the user's contract: no enable() through a destroyed calendar
         let ok := (enable a w.env).2
-        pure (.world (.enable i) [if ok then "enable-ok" else if a.st = .inited then "enable-nomatch" else "enable-rejected"])
+        pure (.world (.enable i) ([if ok then "enable-ok" else if a.st = .inited then (if w.gtod then "enable-nomatch" else "enable-clock-failure") else "enable-rejected"]
+          ++ (if !ok ∧ a.st = .inited ∧ a.cls = .workday then ["enable-failed-unsubscribed"] else [])))
     | ["dis", i] => do
         let i ← slot? i; let a ← w.get i
         pure (.world (.disable i) [if a.st = .running then "disable-ok" else "disable-rejected"])
     | ["rf", i] => do
         let i ← slot? i; let a ← w.get i
-        pure (.world (.refresh i) [if a.st = .running then "refresh" else "refresh-noop"])
+        pure (.world (.refresh i) ([if a.st = .running then "refresh" else "refresh-noop"]
+          ++ (if a.st = .running ∧ !w.gtod then ["refresh-clock-failure"] else [])
+          ++ (if a.st = .running ∧ (refresh a w.env).target = a.target ∧ (refresh a w.env).st = .running then ["refresh-same-target"] else [])))
     | ["cl", i] => do let i ← slot? i; let _ ← w.get i; pure (.world (.cleanup i) [])
     | ["clx", i] => do let i ← slot? i; let _ ← w.get i; pure (.clx i)
     | ["cb", i] => do let i ← slot? i; let _ ← w.get i; pure (.world (.setCb i) [])
     | ["del", i] => do
         let i ← slot? i; let a ← w.get i
         pure (.world (.destroy i) ((if a.st = .running then ["destroy-enabled"] else ["destroy-idle"]) ++
-                                   (if w.watch.contains i then ["destroy-subscribed"] else [])))
-    | ["calmask", m] => do pure (.world (.calMask (← bounded? m 255)) (if w.watch.isEmpty then [] else ["cal-refresh"]))
-    | ["calsp", sp] => do pure (.world (.calSp (← specialsSep? sp ",")) (if w.watch.isEmpty then [] else ["cal-refresh"]))
+                                   (if w.watch.contains i then ["destroy-subscribed"] else []) ++
+                                   (if !w.calAlive ∧ a.cls = .workday ∧ a.calSet then ["destroy-workday-after-calendar"] else [])))
+    | ["calmask", m] => do
+        let m ← bounded? m 255
+        if !w.calAlive then none else
+        pure (.world (.calMask m) ((if w.watch.isEmpty then [] else ["cal-refresh"]) ++ (if m = w.cal.weekMask then ["cal-unchanged"] else [])))
+    | ["calsp", sp] => do
+        let sp ← specialsSep? sp ","
+        if !w.calAlive then none else
+        pure (.world (.calSp sp) ((if w.watch.isEmpty then [] else ["cal-refresh"]) ++ (if sp == w.cal.special then ["cal-unchanged"] else [])))
+    | ["gtod", b] => do pure (.world (.gtod (← bool? b)) [])
+    | ["caldel"] => do
+        if !(w.calAlive && !anyWorkdayRunning w) then none else     -- the contract: only when no workday alarm is enabled
+        pure (.world .caldel ["calendar-destroyed"])
     | ["adv", d] => do
         let d ← bounded? d 40000000000
         if w.wallMs + d > maxWallMs then none else pure (.clock (.adv d))
@@ -361,6 +380,7 @@ partial def firePass (a0 : TAcc) (count : Nat) : TAcc :=
                 let w' := wFire a.w j
                 let tags := [if e.sec < r.2.1 then "fire-early" else if e.sec > r.2.1 then "fire-late" else "fire-on-time"]
                   ++ (if r.1.st = .running then (if remainSeconds r.1 e > far then ["rearm-far"] else ["rearm"]) else ["no-rearm"])
+                  ++ (if !e.gtod then ["expiry-clock-failure"] else [])
                   ++ (if al.lastServed != 0 ∧ r.2.1 ≤ al.lastServed then ["served-again"] else [])
                   ++ (if (a.w.script j).isEmpty then [] else ["script-run"] ++ armTags { a.w.put j (some r.1) with } w')
                   ++ (if count > 0 then ["pass-multi"] else [])
@@ -411,6 +431,7 @@ def finish (d : DS) : List String :=
   match a.err with
   | some e => tagsLine ++ ["reject " ++ e]
   | none =>
+    if a.w.uaf then tagsLine ++ ["reject M: the model executed a step through the destroyed calendar (driver legality check out of step with wValid)"] else
     match a.tl with
     | [] => tagsLine ++ [s!"ok ops={a.nops} callbacks={a.w.log.length}"]
     | l :: _ => tagsLine ++ ["reject unexpected extra implementation output: [" ++ l ++ "]"]
